@@ -78,3 +78,10 @@ def _kf_sety_norm(prop_id, sub_name, case, failure):
 def _kf_het_da(prop_id, sub_name, case, failure):
     """Heteroscedastic conditionals constructed with Da > Dy (A not square)."""
     return bool(failure.get("kf_het_da"))
+
+
+@matcher("KF-HET-DEGENERATE")
+def _kf_het_degenerate(prop_id, sub_name, case, failure):
+    """step / ReLU heteroscedastic classes with Dx > 1: the bound is NaN when a_i'M is parallel to w_i (incl. M = 0).
+    Only a non-finite bound on an input the check itself classified as degenerate is matched."""
+    return bool(failure.get("kf_het_degenerate")) and failure.get("label", "").endswith(":nonfinite")
